@@ -219,7 +219,12 @@ def convergence(src, n=2, faults=1, delays=0, rounds=6, closing=10, configs=('LI
     from harness import cluster_common as CC
     cl, cfg, plan, senders, traces = CC.run_schedule(src, n=n, rounds=rounds, closing=closing, faults=faults,
                                                      delays=delays, configs=configs, fences=fences)
-    sig = '+'.join(k[0] for _, _, k in plan) or 'none'
+    _converged(src, cl, plan, senders)
+
+
+def _converged(src, cl, plan, senders, sig=None):
+    from harness import cluster_common as CC
+    sig = sig or '+'.join(k[0] for _, _, k in plan) or 'none'
     for g in CC.groups(cl):
         ids = [c.ident for c in g]
         masters = {c.ident: c.rpc_intf.get_master_identifier() for c in g}
@@ -240,10 +245,39 @@ def convergence(src, n=2, faults=1, delays=0, rounds=6, closing=10, configs=('LI
     src.obs('masters', {c.ident: c.state_modes.master_identifier for c in cl.live()})
 
 
+@rigged
+def split_brain(src, n=2, max_len=8, configs=('LIST+TIMEOUT', 'CORE'), fences=(False, True)):
+    """H01g: a partition that lasts a solver-chosen number of rounds (shorter or longer than failure detection, so each
+    side may or may not have kept / elected its own Master) cuts one instance from the others, then heals"""
+    from harness import cluster_common as CC
+
+    def plan_fn(src):
+        cut = src.pick_int('cut_instance', 0, n - 1)
+        start = src.pick_int('partition_round', 2, 3)
+        pos = src.pick_int('partition_pos', 0, n - 1)
+        length = src.pick_int('partition_length', 1, max_len)
+        hpos = src.pick_int('heal_pos', 0, n - 1)
+        plan = []
+        for other in range(n):
+            if other != cut:
+                a, b = min(cut, other), max(cut, other)
+                plan.append((start, pos, ('partition', a, b)))
+                plan.append((start + length, hpos, ('heal', a, b)))
+        return plan
+    cl, cfg, plan, senders, traces = CC.run_schedule(src, n=n, rounds=4 + max_len, closing=12, configs=configs,
+                                                     fences=fences, plan_fn=plan_fn)
+    length = plan[1][0] - plan[0][0]
+    _converged(src, cl, plan, senders, sig=f'partition-of-{length}-rounds-then-heal')
+    if len({c.state_modes.master_identifier for c in cl.live()}) == 1 and len(CC.groups(cl)) == 1:
+        src.reach('reunited')
+
+
 HARNESSES = [
     Harness('H01f', convergence, quick={'n': 2, 'faults': 1, 'delays': 0},
             thorough={'n': 3, 'faults': 2, 'delays': 0}, reach=('quiescent',), timeout=(150, 1800),
             doc='cluster convergence on one running Master after a solver-chosen fault'),
+    Harness('H01g', split_brain, quick={'n': 2}, thorough={'n': 3}, reach=('quiescent', 'reunited'), timeout=(150, 1500),
+            doc='split brain: partition of 1..8 rounds (each side keeps or elects a Master) then heal'),
     Harness('H01f-delays', convergence, quick=None, thorough={'n': 2, 'faults': 1, 'delays': 1},
             reach=('quiescent',), timeout=(0, 1800), doc='same with one held task'),
     Harness('H01a', rule, quick={'n': 3}, thorough={'n': 4}, reach=('selected', 'single-recognised'),
